@@ -190,4 +190,5 @@ func c07(ctx *Ctx) {
 			ctx.Monitor("C07/concurrent-winners", fmt.Sprintf("%d of %d concurrent presentations accepted", wins, G), map[string]interface{}{"cap": capacity})
 		}
 	}
+	c07process(ctx)
 }
